@@ -29,6 +29,11 @@ pub enum JoinType {
 
 pub type JoinKeys = SmallVec<[DataValue; 2]>;
 
+/// Returns true if any of the join keys is NULL.
+fn has_null(keys: &[DataValue]) -> bool {
+    keys.iter().any(|key| key.is_null())
+}
+
 impl<const T: JoinType> HashJoinExecutor<T> {
     #[try_stream(boxed, ok = DataChunk, error = ExecutorError)]
     pub async fn execute(self, left: BoxedExecutor, right: BoxedExecutor) {
@@ -39,12 +44,21 @@ impl<const T: JoinType> HashJoinExecutor<T> {
             matched: bool,
         }
         let mut hash_map: HashMap<JoinKeys, LeftKeyInfo> = HashMap::new();
+        // Left rows with a NULL key. NULL is not equal to anything (not even to NULL), so these
+        // rows match nothing; they are only output by left/full outer joins.
+        let mut left_null_key_rows: Vec<Row> = vec![];
         #[for_await]
         for chunk in left {
             let chunk = chunk?;
             let keys_chunk = Evaluator::new(&self.left_keys).eval_list(&chunk)?;
             for (row, keys) in chunk.rows().zip(keys_chunk.rows()) {
-                let keys = keys.values().collect();
+                let keys: JoinKeys = keys.values().collect();
+                if has_null(&keys) {
+                    if T == JoinType::LeftOuter || T == JoinType::FullOuter {
+                        left_null_key_rows.push(row.to_owned());
+                    }
+                    continue;
+                }
                 hash_map.entry(keys).or_default().rows.push(row.to_owned());
             }
             tokio::task::consume_budget().await;
@@ -59,6 +73,7 @@ impl<const T: JoinType> HashJoinExecutor<T> {
             let chunk = chunk?;
             let keys_chunk = Evaluator::new(&self.right_keys).eval_list(&chunk)?;
             for (right_row, keys) in chunk.rows().zip(keys_chunk.rows()) {
+                // a NULL key is never in the map
                 if let Some(left_rows) = hash_map.get_mut(&keys.values().collect::<JoinKeys>()) {
                     left_rows.matched = true;
                     for left_row in &left_rows.rows {
@@ -81,11 +96,12 @@ impl<const T: JoinType> HashJoinExecutor<T> {
 
         // append rows for left outer join
         if T == JoinType::LeftOuter || T == JoinType::FullOuter {
-            for (_, rows) in hash_map {
-                if rows.matched {
-                    continue;
-                }
-                for row in rows.rows {
+            let unmatched = (hash_map.into_values())
+                .filter(|rows| !rows.matched)
+                .map(|rows| rows.rows.into_vec())
+                .chain(std::iter::once(left_null_key_rows));
+            for rows in unmatched {
+                for row in rows {
                     // append row: (left, NULL)
                     let values =
                         (row.into_iter()).chain(self.right_types.iter().map(|_| DataValue::Null));
@@ -120,7 +136,11 @@ impl HashSemiJoinExecutor {
             let chunk = chunk?;
             let keys_chunk = Evaluator::new(&self.right_keys).eval_list(&chunk)?;
             for row in keys_chunk.rows() {
-                key_set.insert(row.values().collect());
+                let keys: JoinKeys = row.values().collect();
+                // NULL is not equal to anything, so a NULL key can not be matched
+                if !has_null(&keys) {
+                    key_set.insert(keys);
+                }
             }
             tokio::task::consume_budget().await;
         }
@@ -158,8 +178,13 @@ impl HashSemiJoinExecutor2 {
             let chunk = chunk?;
             let keys_chunk = Evaluator::new(&self.right_keys).eval_list(&chunk)?;
             for (key, row) in keys_chunk.rows().zip(chunk.rows()) {
+                let keys: JoinKeys = key.values().collect();
+                // NULL is not equal to anything, so a NULL key can not be matched
+                if has_null(&keys) {
+                    continue;
+                }
                 let chunk = key_set
-                    .entry(key.values().collect())
+                    .entry(keys)
                     .or_insert_with(|| DataChunkBuilder::unbounded(&self.right_types))
                     .push_row(row.values());
                 assert!(chunk.is_none());
